@@ -135,3 +135,11 @@ def const_value(fn, node):
             continue
         return None
     return None
+
+
+def is_zero(fn, node):
+    """Literal 0 or a std::chrono ::zero() value."""
+    if const_value(fn, node) == 0:
+        return True
+    n = fn.strip(node)
+    return fn.nodes[n].get('callee', '').endswith('::zero')
